@@ -208,7 +208,7 @@ class ControlVariates:
         sigma_x = covariance[0:-1, 0:-1]
         sigma_xy = covariance[0:-1, -1]
         try:
-            if np.amin(np.absolute(sigma_x)) < 1e-12:
+            if np.amin(np.diag(sigma_x)) < 1e-12:
                 b_star = np.zeros_like(sigma_xy)
             else:
                 inv_sigma_x = np.linalg.inv(sigma_x)
